@@ -884,6 +884,36 @@ func c08Gen(t *rapid.T, cx *h.Ctx) C08Case {
 				inner = `{"type":"GeometryCollection","geometries":[` + inner + `]}`
 			}
 			data = []byte(inner)
+		case "wkb":
+			if rapid.Bool().Draw(t, "greedynest") {
+				// collections nested as deep as the length allows, every level claiming as many members as the bytes
+				// after its header could hold: each count passes a per-level plausibility check, the sum must not
+				// become quadratic
+				total := rapid.SampledFrom([]int{900, 9000, 30000, 65529}).Draw(t, "greedylen")
+				div := rapid.SampledFrom([]int{5, 9, 21, 100}).Draw(t, "greedydiv")
+				var buf []byte
+				for len(buf)+9 <= total {
+					rem := total - len(buf) - 9
+					buf = append(buf, 1, 7, 0, 0, 0)
+					buf = binary.LittleEndian.AppendUint32(buf, uint32(rem/div))
+				}
+				data = append(buf, make([]byte, total-len(buf))...)
+			} else {
+				data = bytes.Repeat(s.data, rep)
+			}
+		case "twkb":
+			if rapid.Bool().Draw(t, "greedynest") {
+				total := rapid.SampledFrom([]int{900, 9000, 30000, 65529}).Draw(t, "greedylen")
+				var buf []byte
+				for len(buf)+4 <= total {
+					rem := total - len(buf) - 4
+					buf = append(buf, 0x07, 0x00)
+					buf = binary.AppendUvarint(buf, uint64(rem/2))
+				}
+				data = append(buf, make([]byte, total-len(buf))...)
+			} else {
+				data = bytes.Repeat(s.data, rep)
+			}
 		default:
 			data = bytes.Repeat(s.data, rep)
 		}
